@@ -57,6 +57,60 @@ func c08R1(p *core.Prog, r *core.Report, rule string) {
 		for _, lk := range locks {
 			n++
 			lki := lk.(ssa.Instruction)
+			// ownership transfer: the function hands back a release closure that unlocks the same locker
+			// and ref; the pairing is then checked at its callers
+			if rel := releaseClosureFor(fn, lk); rel {
+				sites := p.Callers(fn)
+				okAll := len(sites) > 0
+				for _, st := range sites {
+					cs, isCall := st.Site.(*ssa.Call)
+					if !isCall || core.CalleeFn(cs) != fn {
+						okAll = false
+						continue
+					}
+					caller := st.From
+					fromRel := func(v ssa.Value) bool {
+						for _, o := range core.Origins(v, core.SliceOpts{}) {
+							if o.Kind == core.OCall && o.Call == cs && (o.Res == 0 || o.Res == -1) {
+								return true
+							}
+						}
+						return false
+					}
+					isRelease := func(in ssa.Instruction) bool {
+						d, ok := in.(*ssa.Defer)
+						return ok && !d.Call.IsInvoke() && fromRel(d.Call.Value)
+					}
+					failed := map[[2]*ssa.BasicBlock]bool{}
+					for _, e := range errEdgesOf(caller, cs) {
+						failed[e] = true
+					}
+					seen := core.Reach{Stop: isRelease, StopEdge: func(a, b *ssa.BasicBlock) bool { return failed[[2]*ssa.BasicBlock{a, b}] }}.FromInstr(cs)
+					bad := ""
+					for in := range seen {
+						if _, isRet := in.(*ssa.Return); isRet {
+							bad = "a return at " + p.Pos(in.Pos()) + " is reachable after the lock was taken without the release function being deferred"
+						}
+						if c, isCall := in.(ssa.CallInstruction); isCall && core.CalleeFn(c) == trav {
+							bad = "the copy starts at " + p.Pos(in.Pos()) + " before the release function is deferred"
+						}
+					}
+					before := core.Reach{Stop: func(in ssa.Instruction) bool { return in == ssa.Instruction(cs) }}.FromEntry(caller)
+					for in := range before {
+						if c, isCall := in.(ssa.CallInstruction); isCall && core.CalleeFn(c) == trav {
+							bad = "the copy traversal is reachable without taking the GC lock"
+						}
+					}
+					if bad != "" {
+						r.Violated(rule, p.FuncName(caller), "GC lock held through "+fn.Name(), p.Pos(cs.Pos()), bad)
+						okAll = false
+					} else {
+						r.Held(rule, p.FuncName(caller), "GC lock held through "+fn.Name(), p.Pos(cs.Pos()), "the release function returned by "+fn.Name()+" is deferred before any return or the copy")
+					}
+				}
+				r.Check(okAll, rule, fname, "GCLock handed over to the caller", p.Pos(lk.Pos()), "the lock is released by the closure this function returns; every caller defers it")
+				continue
+			}
 			// matching deferred unlock
 			isUnlock := func(in ssa.Instruction) bool {
 				d, ok := in.(*ssa.Defer)
@@ -109,6 +163,85 @@ func c08R1(p *core.Prog, r *core.Report, rule string) {
 	if n == 0 {
 		r.MissingAnchor(rule, "call of scheme.GCLocker.GCLock in package regclient")
 	}
+}
+
+// releaseClosureFor: every return reachable after the lock call lk hands back (as its first result) a
+// function literal that calls GCUnlock on the same locker with the same argument.
+func releaseClosureFor(fn *ssa.Function, lk ssa.CallInstruction) bool {
+	found := false
+	for in := range (core.Reach{}).FromInstr(lk.(ssa.Instruction)) {
+		ret, ok := in.(*ssa.Return)
+		if !ok {
+			continue
+		}
+		if len(ret.Results) == 0 {
+			return false
+		}
+		mc, ok := core.ReturnOperand(ret, 0).(*ssa.MakeClosure)
+		if !ok {
+			return false
+		}
+		lit, _ := mc.Fn.(*ssa.Function)
+		if lit == nil {
+			return false
+		}
+		unlocks := false
+		core.Calls(lit, func(c ssa.CallInstruction) {
+			if !isInvoke(c, "GCUnlock") || len(c.Common().Args) != 1 {
+				return
+			}
+			// receiver and argument are the captured locker and ref
+			recvOK, argOK := false, false
+			for i, fv := range lit.FreeVars {
+				if i >= len(mc.Bindings) {
+					continue
+				}
+				b := mc.Bindings[i]
+				if refersTo(c.Common().Value, fv) && (b == lk.Common().Value || sameValue(b, lk.Common().Value) || cellHolds(b, lk.Common().Value)) {
+					recvOK = true
+				}
+				if refersTo(c.Common().Args[0], fv) && (b == lk.Common().Args[0] || sameValue(b, lk.Common().Args[0]) || cellHolds(b, lk.Common().Args[0])) {
+					argOK = true
+				}
+			}
+			if recvOK && argOK {
+				unlocks = true
+			}
+		})
+		if !unlocks {
+			return false
+		}
+		found = true
+	}
+	return found
+}
+
+// refersTo: v is the free variable fv or a load of it.
+func refersTo(v ssa.Value, fv *ssa.FreeVar) bool {
+	if v == ssa.Value(fv) {
+		return true
+	}
+	if u, ok := v.(*ssa.UnOp); ok && u.Op == token.MUL && u.X == ssa.Value(fv) {
+		return true
+	}
+	return false
+}
+
+// cellHolds: binding is a cell whose stored value is v, or v is a load of that cell.
+func cellHolds(binding, v ssa.Value) bool {
+	al, ok := binding.(*ssa.Alloc)
+	if !ok {
+		return false
+	}
+	if u, ok := v.(*ssa.UnOp); ok && u.Op == token.MUL && u.X == ssa.Value(al) {
+		return true
+	}
+	for _, st := range core.StoresToCell(al) {
+		if st.Val == v {
+			return true
+		}
+	}
+	return false
 }
 
 func sameValue(a, b ssa.Value) bool {
@@ -172,6 +305,34 @@ func findGCFields(p *core.Prog) *gcFields {
 	return g
 }
 
+// sweepSite is a file removal of the sweep: rm is the os.Remove call, at the instruction of Close
+// that stands for it (rm itself, or the call of the helper the removal lives in).
+type sweepSite struct {
+	at ssa.Instruction
+	rm ssa.CallInstruction
+}
+
+func sweepSites(closeFn *ssa.Function) []sweepSite {
+	var out []sweepSite
+	isRm := func(f *types.Func) bool { return isOS(f, "Remove") || isOS(f, "RemoveAll") }
+	for _, c := range core.CallsTo(closeFn, isRm) {
+		out = append(out, sweepSite{c.(ssa.Instruction), c})
+	}
+	helpers := core.Helpers(closeFn, 2)
+	core.Calls(closeFn, func(c ssa.CallInstruction) {
+		g := core.CalleeFn(c)
+		if g == nil || g == closeFn || !helpers[g] {
+			return
+		}
+		for h := range core.Helpers(g, 2) {
+			for _, rm := range core.CallsTo(h, isRm) {
+				out = append(out, sweepSite{c.(ssa.Instruction), rm})
+			}
+		}
+	})
+	return out
+}
+
 func c08R2(p *core.Prog, r *core.Report, rule string) {
 	r.Rule(rule, "sweep guard: every removal reachable in Close is dominated by the 'modified' and 'not locked' edges and runs with the layout mutex held; bookkeeping entries are dropped only behind the not-locked edge and never overwritten; the bookkeeping is touched only under the mutex", 3)
 	g := findGCFields(p)
@@ -214,9 +375,10 @@ func c08R2(p *core.Prog, r *core.Report, rule string) {
 	fname := p.FuncName(closeFn)
 	lab := labeler{}
 	nRem := 0
-	for _, c := range core.CallsTo(closeFn, func(f *types.Func) bool { return isOS(f, "Remove") || isOS(f, "RemoveAll") }) {
+	for _, site := range sweepSites(closeFn) {
 		nRem++
-		in := c.(ssa.Instruction)
+		in := site.at
+		c := site.rm
 		var why []string
 		if !notLocked(in.Block()) {
 			why = append(why, "not behind the 'lock count is zero' edge: the sweep can run while a copy into this layout is in progress and delete its not-yet-referenced blobs")
@@ -580,7 +742,8 @@ func c08R6(p *core.Prog, r *core.Report) {
 	shape := map[string]bool{"Validate": true, "Parse": true, "Available": true, "MatchString": true, "Match": true, "HasSuffix": true, "HasPrefix": true, "Contains": true, "Ext": true}
 	lab := labeler{}
 	n := 0
-	for _, c := range core.CallsTo(closeFn, func(f *types.Func) bool { return isOS(f, "Remove") || isOS(f, "RemoveAll") }) {
+	for _, site := range sweepSites(closeFn) {
+		c := site.rm
 		n++
 		label := lab.next("sweep removal independent of the name's shape")
 		bad := ""
